@@ -83,6 +83,16 @@ def entry_points():
     eps["Annotation.get_annotated()"] = (lambda doc, n: para(doc).insert_annotation(Annotation("remark", creator="c", name=n), position=(2, 6)),
                                          between(lambda d, n: d.body.get_annotation(name=n), lambda e: e.get_annotated(as_text=True).strip(), "me t"), lambda e: e.name)
 
+    def named_range_store(doc, n):
+        t = doc.body.get_table(name="NR")
+        if t is None:
+            t = Table("NR", width=3, height=3)
+            doc.body.append(t)
+            t = doc.body.get_table(name="NR")
+        t.set_named_range(n, "A1:B2")
+
+    eps["get_named_range(name) [table]"] = (named_range_store, lambda doc, n: [doc.body.get_named_range(n)], lambda e: e.name)
+
     def styled_table_store(doc, n):
         k = len(STYLE_OF)
         sname = f"verif_ts{k}"
